@@ -66,8 +66,15 @@ def pipeline(tier):
     opath = os.path.join(wd, "traces.ndjson")
     env = dict(os.environ, VERIF_CASES=cpath, VERIF_OUT=opath, VERIF_TIER=tier, VERIF_SEED=str(sd))
     p = vlib.run_cmd([binary, "-test.run", "^TestVerifPickle$", "-test.timeout", "3000s"], env=env, cwd=wd)
+    crashed = None
     if p.returncode != 0:
-        raise Inconclusive("pickle harness failed (exit %d):\n%s" % (p.returncode, p.stdout[-3000:]))
+        # a fatal error inside the codec itself (stack overflow) kills the harness: that is behaviour
+        # of the real code on a harness input, not a tool failure
+        o = p.stdout
+        if ("fatal error: stack overflow" in o or "goroutine stack exceeds" in o) and ("pickle.(*Encoder)" in o or "pickle.(*Decoder)" in o):
+            crashed = "the codec crashed the process with a stack overflow in " + ("Encode" if "pickle.(*Encoder)" in o else "Decode")
+        else:
+            raise Inconclusive("pickle harness failed (exit %d):\n%s" % (p.returncode, p.stdout[-3000:]))
     lines = [json.loads(l) for l in open(opath)]
     res["n_lines"] = len(lines)
     kinds = {}
@@ -89,6 +96,10 @@ def pipeline(tier):
         for x in v["viol"]:
             e = l["events"][x["at"] - 1]
             out.append({"prop": x["prop"], "what": x["what"], "id": v["id"], "at": x["at"], "event": summarise(e)})
+    if crashed:
+        last = lines[-1]["events"][-1] if lines else {"ev": "none"}
+        out.append({"prop": "C07" if "Encode" in crashed else "C15", "what": crashed, "id": "crash", "at": 0,
+                    "event": {"ev": "Crash", "after": summarise(last) if last.get("ev") in ("RoundTrip", "Decode") else {}}})
     res["violations"] = out
     res["samples"] = [summarise(lines[0]["events"][0]), summarise(lines[-1]["events"][-1])]
     res["distinct_values"] = len({json.dumps(e.get("v"), sort_keys=True) for l in lines for e in l["events"] if e["ev"] == "RoundTrip"})
@@ -125,6 +136,8 @@ def summarise(e):
 
 def sig_of(v):
     ev = v["event"]
+    if ev["ev"] == "Crash":
+        return "%s|%s" % (v["prop"], v["what"])
     if ev["ev"] == "RoundTrip":
         return "%s|%s|%s" % (v["prop"], v["what"], ev["value"])
     return "%s|%s|%s" % (v["prop"], v["what"], ev.get("hex", ""))
